@@ -85,6 +85,7 @@ def run_case(world, prop, monitor, extra_monitors=(), key_fn=None, nontrivial_fn
         if name == "resolved":
             bump("resolved.runs")
         bump("trials", len(ex.trials))
+        bump("trials.with_step_hook", sum(1 for t in ex.trials if t.used))
         nfired = len(ex.problem.fired) + len([f for f in ex.lin_fired if f[0] != "obs_solve"])
         if nfired:
             bump("fired.total", nfired)
